@@ -82,7 +82,8 @@ def recordedEnv : Env :=
       | "isinstance", [.obj c _ fs, .str want] =>
           some (.bool (c == want || (match lookupField fs ("isinstance:" ++ want) with | some (.bool true) => true | _ => false)))
       | "isinstance", [_, .str _] => some (.bool false)
-      | _, _ => Option.none }
+      -- a constructor / module function the fragment does not know: the structural value (name, arguments…)
+      | f, args => if f.contains '.' || (f.front.isUpper) then some (.tuple (.str f :: args)) else Option.none }
 
 partial def parseAll (toks : List String) : Option (List Val) :=
   match toks with
